@@ -2,7 +2,7 @@
    This file contains only statements; each is closed by [exact <lemma>].
    g_cov = signedHeaders (request_signer.go), g_covh = canonicalised SignatureHeaders (oauthproxy.go,
    hmacauth.NewHmacAuth): both lists are re-extracted from the Go source on every run (gen/Gen_Signer.v). *)
-From V Require Import Base Signer Signer_proofs Gen_Signer Signer_gen_proofs CorrBase Corr_C12 Corr_C12_proofs.
+From V Require Import Base Signer Signer_proofs Gen_Signer Signer_gen_proofs CorrBase Corr_C12_defs Corr_C12_proofs.
 
 (* For every configuration whose `to` is a bare host and every request the proxy hands to the upstream
    handler chain (any method, headers, cookies, identity, path beginning with "/", query, body,
@@ -214,7 +214,7 @@ Theorem C12_kid_names_key :
 Proof. exact g_kid_names_key. Qed.
 Print Assumptions C12_kid_names_key.
 
-(* The monitor that Corr_C12.judge applies to the implementation's observations accepts the model's
+(* The monitor that Corr_C12_defs.judge applies to the implementation's observations accepts the model's
    own prediction for every input satisfying the guards (so a falsifying observation is either a
    difference between model and implementation, or one of the two refuted clauses). *)
 Theorem C12_monitor_accepts_model :
